@@ -2,6 +2,7 @@
 //! (b) Checker::new + test_on under catch_unwind on parseable inputs x libraries x configurations, every
 //! label range and code dumped for Coq to judge.
 use crate::cases::Cases;
+use full_moon::node::Node;
 use crate::gal::*;
 use crate::genlib::*;
 use crate::genlua::gen_program;
@@ -38,6 +39,21 @@ const SPECIAL: [&str; 24] = [
     "-- selene: deny(shadowing)\n--[[ selene: allow(empty_if) ]]",
     "local labels = {}\nfor key, value in pairs(localized(\"\u{3088}\u{3046}\u{3053}\u{305d}\u{3001}\u{3053}\u{308c}\u{306f}\u{7ffb}\u{8a33}\u{30c7}\u{30fc}\u{30bf}\u{3067}\u{3059}\u{3001}\u{3068}\u{3066}\u{3082}\u{9577}\u{3044}\u{6587}\u{5b57}\u{5217}\")) do\n  labels[key] = value\nend\nprint(labels)\n",
     "local out = {}\nfor i, v in ipairs(t.\u{e9}\u{e9}\u{e9}\u{e9}\u{e9}\u{e9}\u{e9}\u{e9}\u{e9}\u{e9}\u{e9}\u{e9}\u{e9}\u{e9}\u{e9}\u{e9}\u{e9}\u{e9}\u{e9}\u{e9}\u{e9}\u{e9}\u{e9}\u{e9}\u{e9}\u{e9}\u{e9}\u{e9}\u{e9}\u{e9}\u{e9}) do\n  out[i] = v\nend\nprint(out)\n",
+];
+
+/// programs whose diagnostics carry labels computed from parts of nodes; swept with a multi-byte comment after every token
+const SWEEP: [&str; 8] = [
+    "math.max(1, 2)\nlocal s = string.format(\"%d\", 1)\ntostring(1)\nprint(s)\n",
+    "local t = { [1] = 1, [1] = 2, a = 3, a = 4, 5 }\nprint(t, table.getn(t))\n",
+    "local function f(a, b) return a end\nf(1, 2, 3)\nf()\nlocal g = function(...) end\ng(1)\n",
+    "for i = 10, 1 do print(i) end\nlocal a, b = 1\na, b = 1, 2, 3\nprint(a, b)\n",
+    "if x == nil then elseif x == nil then end\nlocal y = x ~= x, x / 0, {} == {}\nprint(y)\n",
+    "string.foo(1)\nmath.floor(\"x\")\nprint(#\"a\" .. 1, string.format(\"%d\"))\n",
+    "local a, b = 1, 2\na = b\nb = a\nprint(type(a == \"number\"), (a))\nif (a) then end\n",
+    "_G.x = 1\nx = 2\nlocal x = 3\nlocal x = 4\nprint(x, t:m(), os.execute())\n",
+];
+const NUMBER_KEYS: [&str; 12] = [
+    "0x10000000000000000", "0xffffffffffffffffffff", "1e400", "0x1p4", "0xA.8p0", "0b101", "1LL", "0x10ULL", "1_000", ".5", "5.", "0x.8",
 ];
 
 const LINT_NAMES: [&str; 12] = [
@@ -136,9 +152,31 @@ pub fn generate(seed: u64, n: usize, thorough: bool) -> Cases {
     let mut cases = Cases::new("C11");
     let mut rng = Rng::new(seed);
     let fx = fixtures();
-    for i in 0..n {
+    // the sweeps are part of every run; `queue` holds (source, library name) pairs that go through the same pipeline below
+    let mut queue: Vec<(String, &'static str)> = Vec::new();
+    for (ti, t) in SWEEP.iter().enumerate() {
+        if let Ok(ast) = full_moon::parse_fallible(t, full_moon::LuaVersion::lua51()).into_result() {
+            let ends: Vec<usize> = ast.tokens().map(|tk| tk.token().end_position().bytes()).filter(|e| *e > 0 && *e <= t.len()).collect();
+            for (k, e) in ends.iter().enumerate() {
+                // quick: every other position per template, alternating the two comment kinds; thorough: all
+                if !thorough && ti != 0 && (k + ti) % 2 == 1 {
+                    continue;
+                }
+                let ins = if (k + ti) % 4 < 2 { "--\u{e9}\u{65e5}\n" } else { " --[[\u{e9}\u{1f600}]] " };
+                queue.push((format!("{}{}{}", &t[..*e], ins, &t[*e..]), if ti % 2 == 0 { "lua51" } else { "luau" }));
+            }
+        }
+    }
+    for k in NUMBER_KEYS.iter() {
+        for std in ["lua51", "lua53", "luau"] {
+            queue.push((format!("local t = {{ [{k}] = 1, [{k}] = 2, [1] = 3, 4 }}\nprint(t, math.floor({k}), {k} / 0)\nfor i = #t, {k} do end\n"), std));
+        }
+    }
+    let n_queue = queue.len();
+    for i in 0..(n + n_queue) {
         let mut r = rng.fork(i as u64);
-        if r.chance(1, 4) {
+        let queued = if i >= n { Some(queue[i - n].clone()) } else { None };
+        if queued.is_none() && r.chance(1, 4) {
             // (a) try_instead
             let replace: Vec<String> = (0..r.range(1, 3))
                 .map(|_| (0..r.range(0, 5)).map(|_| *r.pick(&FMT_ATOMS)).collect::<String>())
@@ -158,7 +196,7 @@ pub fn generate(seed: u64, n: usize, thorough: bool) -> Cases {
             continue;
         }
         // (b) whole pipeline
-        let generated = r.chance(1, 3);
+        let generated = queued.is_none() && r.chance(1, 3);
         let (lib, std_name, lib_term) = if generated {
             let o = LibOpts { max_keys: 6, max_depth: 3, removed: r.chance(1, 4), structs: true, versions: false, rich_fields: true };
             let mut l = gen_lib(&mut r, &o);
@@ -170,7 +208,7 @@ pub fn generate(seed: u64, n: usize, thorough: bool) -> Cases {
             let t = glib(&l);
             (l, "generated".to_string(), format!("(Some {t})"))
         } else {
-            let name = *r.pick(&STDS);
+            let name = match &queued { Some((_, std)) => *std, None => *r.pick(&STDS) };
             match load_std(name) {
                 Some(l) => (l, name.to_string(), "None".to_string()),
                 None => continue,
@@ -182,16 +220,19 @@ pub fn generate(seed: u64, n: usize, thorough: bool) -> Cases {
             2..=4 if !fx.is_empty() => r.pick(&fx).clone(),
             _ => gen_program(&mut r).0,
         };
+        if let Some((qsrc, _)) = &queued {
+            src = qsrc.clone();
+        }
         if generated {
             src = format!("{}\n{}", touch_library(&mut r, &lib), src);
         }
-        if r.chance(1, 2) {
+        if queued.is_none() && r.chance(1, 2) {
             src = mutate(&mut r, &src);
         }
         if src.len() > (if thorough { 6000 } else { 3000 }) {
             continue;
         }
-        let config_text = gen_config(&mut r);
+        let config_text = if queued.is_some() { "[lints]\nglobal_usage = \"warn\"\nmust_use = \"warn\"\n".to_string() } else { gen_config(&mut r) };
         let config: CheckerConfig<toml::value::Value> = match toml::from_str(&config_text) {
             Ok(c) => c,
             Err(_) => continue,
@@ -240,7 +281,7 @@ pub fn generate(seed: u64, n: usize, thorough: bool) -> Cases {
                 diags_term,
                 gbool(panicked)
             ),
-            json!({"kind": if generated { "generated-lib" } else { "shipped-lib" }, "std": std_name, "source": src, "config": config_text,
+            json!({"kind": if queued.is_some() { "sweep" } else if generated { "generated-lib" } else { "shipped-lib" }, "std": std_name, "source": src, "config": config_text,
                    "panicked": panicked, "diagnostics": desc_d, "closed": structs_closed(&lib),
                    "library": if generated { serde_yaml::to_string(&lib).unwrap_or_default() } else { String::new() },
                    "nontrivial": !desc_d.is_empty() || panicked}),
